@@ -94,7 +94,7 @@ Cond_C02_Stored == (Has /\ Ev.ev = "dir" /\ Ev.builder # "raw") =>
     ELSE /\ Len(Ev.plain) = Len(Ev.expect)
          /\ {<<Ev.plain[k].name, Ev.plain[k].link>> : k \in 1 .. Len(Ev.plain)} = SeqSet(Ev.expect)
 Cond_C02_Open == (Has /\ Ev.ev = "opennode" /\ NoFault /\ D.builder # "raw") => (Ev.e = "nil" /\ Ev.kind = "map")
-Cond_C02_Lookup == (Has /\ Ev.ev = "lookup" /\ D.builder # "raw" /\ NoFault /\ Ev.name > 0) =>
+Cond_C02_Lookup == (Has /\ Ev.ev = "lookup" /\ D.builder # "raw" /\ NoFault /\ Ev.name > 0 /\ ~(D.mode = "conc" /\ Miss # {})) =>
     IF Ev.name \in ExpNames
     THEN Ev.res = "found" /\ Ev.link = ExpLink(Ev.name)
     ELSE Ev.res = NotFoundRes(Ev.how)
@@ -164,6 +164,10 @@ Cond_C15_Lookup == (Has /\ Ev.ev = "lookup" /\ NoFault /\ Miss = {} /\ Ev.name #
 \* ---- C17: no data race reported on the scenarios run under the race detector ----
 Cond_C17_NoRace == (Has /\ Ev.ev = "racecheck") => (Ev.races = 0 /\ Ev.completed)
 
+Cond_C17_MissingShard == (Has /\ Ev.ev = "lookup" /\ D.mode = "conc" /\ IsHamt /\ Ev.name > 0 /\ Miss # {}) =>
+    IF Crosses(Ev.name) THEN Ev.res = "err"
+    ELSE (Ev.res = (IF HL(Ev.name).res = "found" THEN "found" ELSE "notfound") /\ Ev.link = HL(Ev.name).link)
+
 \* ---- C20: first requests follow the depth-first link-order walk ----
 Cond_C20_Order == (Has /\ IsHamt /\ D.mode = "seq") => IsPrefixSeq(firstReq, PreShards)
 Cond_C20_Complete == (Has /\ IsHamt /\ D.mode = "seq" /\ Ev.ev \in {"iter", "length"} /\ NoFault) => firstReq = PreShards
@@ -190,6 +194,7 @@ Inv_C12_IterTerminates == Chk("Inv_C12_IterTerminates", Cond_C12_IterTerminates)
 Inv_C15_Iter == Chk("Inv_C15_Iter", Cond_C15_Iter)
 Inv_C15_Length == Chk("Inv_C15_Length", Cond_C15_Length)
 Inv_C15_Lookup == Chk("Inv_C15_Lookup", Cond_C15_Lookup)
+Inv_C17_MissingShard == Chk("Inv_C17_MissingShard", Cond_C17_MissingShard)
 Inv_C17_NoRace == Chk("Inv_C17_NoRace", Cond_C17_NoRace)
 Inv_C20_Order == Chk("Inv_C20_Order", Cond_C20_Order)
 Inv_C20_Complete == Chk("Inv_C20_Complete", Cond_C20_Complete)
